@@ -36,7 +36,7 @@ ASSUMPTIONS = [
     "the peer's messages are template messages allowed over UDP; the session manager is a stub (no HTTP)",
     "retry budget is the default 10 in half of the runs and 3 in the others",
 ]
-MUST_REACH = {"packetacks_with_only_appended_acks": 30, "reliable_arrivals": 1000, "duplicate_arrivals": 200, "unreliable_arrivals": 500, "acks_sent_checked": 1000,
+MUST_REACH = {"regions_registered_again_at_the_same_address": 10, "refused_sends_before_good_ones": 30, "packetacks_with_only_appended_acks": 30, "reliable_arrivals": 1000, "duplicate_arrivals": 200, "unreliable_arrivals": 500, "acks_sent_checked": 1000,
               "sends_completed_by_appended_ack": 50, "sends_completed_by_packetack": 50, "budgets_exhausted": 5,
               "region_level_duplicates_checked": 100, "reordered_first_arrivals": 100, "session_level_duplicates_checked": 100, "ids_checked_increasing": 1000, "long_circuit_retransmissions": 100, "sends_of_prenumbered_messages": 50, "sequences_with_fractional_resend_interval": 10}
 
@@ -72,12 +72,33 @@ def make_client():
     return session, region, transport, protocol
 
 
-def _run_sequence(ctx, rng, seed):
+def _run_sequence(ctx, rng, seed, reuse=None):
     # the resend interval is the caller's to choose: the default and a fractional one
     CURRENT["resend_every"] = 1.5 if seed % 3 == 0 else RESEND_EVERY
     if CURRENT["resend_every"] != RESEND_EVERY:
         ctx.count("sequences_with_fractional_resend_interval")
-    session, region, transport, protocol = make_client()
+    if reuse is None:
+        session, region, transport, protocol = make_client()
+    else:
+        # second life: the simulator at this address went away (DisableSimulator) and the session is told about a region at
+        # the same address again - a new region object, a new circuit, the peer's packet ids start over
+        session, transport, protocol = reuse
+        gone = Message("DisableSimulator", packet_id=60001, flags=0)
+        try:
+            protocol.datagram_received(bytes(_ser.serialize(gone)), SIM)
+        except Exception as e:
+            ctx.violation("datagram-received-raised", "the client's datagram handler raised on a valid datagram",
+                          {"sequence_seed": seed, "exc": repr(e)[:300], "message": "DisableSimulator"})
+            return None
+        if any(r.circuit_addr == SIM for r in session.regions):
+            ctx.violation("region-not-unregistered", "DisableSimulator did not remove the region", {"sequence_seed": seed})
+            return None
+        region = session.register_region(SIM, "https://sim.example.invalid/seed-again", handle=(1000 << 32) | 1000)
+        session.open_circuit(SIM)
+        region.circuit.is_alive = True
+        region.circuit.resend_every = CURRENT["resend_every"]
+        transport.packets = []
+        ctx.count("regions_registered_again_at_the_same_address")
     tries = rng.choice([3, 10])
     calls = {}   # (level, kind, packet id) -> count
 
@@ -110,7 +131,12 @@ def _run_sequence(ctx, rng, seed):
         transport.packets = []
         res = []
         for (direction, data, dst) in out:
-            m = _eager.deserialize(data)
+            try:
+                m = _eager.deserialize(data)
+            except Exception as e:
+                ctx.violation("client-emitted-undecodable", "the client put a datagram on the wire that does not decode",
+                              dict(wit_base, exc=repr(e)[:200], datagram=data[:120], history_tail=history[-6:]))
+                continue
             res.append(m)
         return res
 
@@ -239,6 +265,29 @@ def _run_sequence(ctx, rng, seed):
             check_ids(msgs)
             after_acks(set(blocks) | set(acks), "packetack")
             continue
+        if r < 0.80 and rng.random() < 0.2:
+            # a send the caller got wrong (a variable left unset / a value that does not fit): it is refused with an exception
+            # and must leave nothing behind in the circuit - whatever goes out next is what it would have been anyway
+            bad = rng.choice([
+                Message("AgentPause", Block("AgentData", AgentID=session.agent_id, SessionID=session.id)),
+                Message("AgentPause", Block("AgentData", AgentID=session.agent_id, SessionID=session.id, SerialNum=2 ** 40)),
+                Message("AgentPause", Block("AgentData", AgentID=session.agent_id, SessionID=session.id, SerialNum=1),
+                        Block("NoSuchBlock", X=1)),
+            ])
+            try:
+                if rng.random() < 0.5:
+                    region.circuit.send(bad)
+                else:
+                    region.circuit.send_reliable(bad)
+                    # (a reliable send that failed to go out is not something the peer can ever acknowledge)
+                    region.circuit.unacked_reliable.pop((bad.direction, bad.packet_id), None)
+                ctx.count("malformed_sends_accepted")
+            except Exception:
+                ctx.count("refused_sends_before_good_ones")
+                region.circuit.unacked_reliable.pop((bad.direction, bad.packet_id), None)
+            history.append(("bad-send",))
+            client_packets()
+            continue
         if r < 0.80 and rng.random() < 0.25:
             # an unreliable send of a message object that already carries a packet id: built with one, or a message that was
             # received earlier / sent before and is passed on; the id on the wire is the circuit's to choose
@@ -334,6 +383,7 @@ def _run_sequence(ctx, rng, seed):
     ctx.nontrivial(("sequence", tuple(h[:2] for h in history)))
     if len(ctx.samples) < 2:
         ctx.sample({"sequence_seed": seed, "events": len(history), "history_head": history[:16]})
+    return session, transport, protocol
 
 
 _CLOCK = {"clock": None}
@@ -416,7 +466,10 @@ def run_sequence_with_clock(ctx, seed):
     clock = VirtualClock().install()
     _CLOCK["clock"] = clock
     try:
-        _run_sequence(ctx, random.Random(seed), seed)
+        rng = random.Random(seed)
+        first = _run_sequence(ctx, rng, seed)
+        if first is not None and seed % 2 == 0:
+            _run_sequence(ctx, rng, seed, reuse=first)
     finally:
         clock.uninstall()
 
